@@ -9,7 +9,7 @@
    printed per rejected record; <<"JUDGED", n>> proves the log was read. *)
 EXTENDS Issuance, Json, SequencesExt
 
-CONSTANT Kind      \* "cert" | "csr" | "crl" | "rl" | "mixed" | "meta" | "metapair"
+CONSTANT Kind      \* "cert" | "csr" | "crl" | "rl" | "mixed" | "meta" | "metapair" | "metarel" | "metamixed"
 
 Log == ndJsonDeserialize("iss_obs.ndjson")
 
@@ -31,7 +31,12 @@ JudgeRec(i, r) == LET e == Exp(r)
                   IN (b = {} /\ sb = {}) \/ PrintT(ToJson([reject |-> i, bad |-> SetToSeq(b), std |-> SetToSeq(sb)]))
 
 JudgeLine(i) == LET r == Log[i] IN
-  IF Kind = "metapair"
+  IF Kind = "metamixed"     \* the record's shape says what it is: relation case / CT pair / single certificate
+  THEN LET b == IF "o" \in DOMAIN r THEN RelBad(r) ELSE IF "base" \in DOMAIN r THEN PairBad(r) ELSE MetaBad(r)
+       IN  b = {} \/ PrintT(ToJson([reject |-> i, bad |-> SetToSeq(b), std |-> <<>>]))
+  ELSE IF Kind = "metarel"
+  THEN RelOK(r) \/ PrintT(ToJson([reject |-> i, bad |-> SetToSeq(RelBad(r)), std |-> <<>>]))
+  ELSE IF Kind = "metapair"
   THEN PairOK(r) \/ PrintT(ToJson([reject |-> i, bad |-> SetToSeq(PairBad(r)), std |-> <<>>]))
   ELSE IF Kind = "meta"
   THEN MetaOK(r) \/ PrintT(ToJson([reject |-> i, bad |-> SetToSeq(MetaBad(r)), std |-> <<>>]))
